@@ -6,9 +6,11 @@ import (
 	"fmt"
 	"math/rand"
 	"strings"
+	"sync"
 
 	openfgav1 "github.com/openfga/api/proto/openfga/v1"
 
+	"github.com/openfga/openfga/internal/check"
 	"github.com/openfga/openfga/internal/iterator"
 	"github.com/openfga/openfga/pkg/storage"
 	"github.com/openfga/openfga/verifharness/vk"
@@ -206,6 +208,7 @@ func runAdapters(c *vk.Ctx) {
 		{"mapper", caseMappers},
 		{"concat", caseConcat},
 		{"filter", caseFilter},
+		{"filter_chain", caseFilterChain},
 		{"merge", caseMerge},
 		{"merge_nodedup", caseMergeNoDedup},
 		{"validate", caseValidate},
@@ -451,6 +454,96 @@ func caseFilter(cc *caseCtx) {
 				e.NoHead = nFilters > 0 // without filters the input itself is returned
 				return e
 			}, map[string]any{"filters": nFilters, "pct_reject": mix[0], "pct_err": mix[1]})
+	}
+}
+
+// NewFilteredIterator with the chain shapes the check engine composes (internal/check: a stateful
+// de-duplication filter, check.BuildUniqueTupleKeyFilter, next to stateless and fallible filters). The
+// conjunction "as the chain defines it": filters are consulted left to right and a filter is consulted
+// only for entries every earlier filter accepted — so a stateful filter records only entries that
+// reached it, and a fallible filter cannot fail on an entry an earlier filter already rejected.
+func caseFilterChain(cc *caseCtx) {
+	base := genInputs(cc.r, 1, genList)
+	orders := [][]string{{"reject", "unique", "fallible"}, {"unique", "fallible"}, {"fallible", "unique"}, {"reject", "unique"}, {"reject", "fallible"}, {"unique", "reject", "fallible"}}
+	order := orders[cc.r.Intn(len(orders))]
+	mixR := []int{20, 40, 70}[cc.r.Intn(3)]
+	mixF := [][2]int{{30, 30}, {0, 60}, {50, 50}, {20, 0}}[cc.r.Intn(4)]
+	rej := verdictFn(cc.r.Int63(), mixR, 0)
+	fal := verdictFn(cc.r.Int63(), mixF[0], mixF[1])
+	byObject := cc.r.Intn(2) == 0
+	keyOf := func(e elem) string {
+		if byObject {
+			return e.Obj
+		}
+		return e.Obj + "#" + e.Rel + "@" + e.User
+	}
+	for _, inj := range injectionsFor(base, nil) {
+		runIter(cc, "filter_chain", base, nil, inj, keysOf,
+			func(_ *env, ins []*obs[*openfgav1.TupleKey]) storage.Iterator[*openfgav1.TupleKey] {
+				visited := &sync.Map{}
+				var filters []iterator.FilterFunc[*openfgav1.TupleKey]
+				for _, kind := range order {
+					switch kind {
+					case "reject":
+						filters = append(filters, func(k *openfgav1.TupleKey) (bool, error) { return rej(elemOfKey(k)) == vPass, nil })
+					case "unique":
+						filters = append(filters, check.BuildUniqueTupleKeyFilter(visited, func(k *openfgav1.TupleKey) string { return keyOf(elemOfKey(k)) }))
+					case "fallible":
+						filters = append(filters, func(k *openfgav1.TupleKey) (bool, error) {
+							e := elemOfKey(k)
+							switch fal(e) {
+							case vPass:
+								return true, nil
+							case vReject:
+								return false, nil
+							}
+							return false, filterErrOf(e)
+						})
+					}
+				}
+				return iterator.NewFilteredIterator[*openfgav1.TupleKey](ins[0], filters...)
+			}, renderKey,
+			func(s []script, errs []error) expectation {
+				seen := map[string]bool{}
+				var seq []string
+				var last error
+			items:
+				for _, e := range s[0].Items {
+					for _, kind := range order {
+						switch kind {
+						case "reject":
+							if rej(e) != vPass {
+								continue items
+							}
+						case "unique":
+							if seen[keyOf(e)] {
+								continue items
+							}
+							seen[keyOf(e)] = true
+						case "fallible":
+							switch fal(e) {
+							case vReject:
+								continue items
+							case vError:
+								last = filterErrOf(e)
+								continue items
+							}
+						}
+					}
+					seq = append(seq, e.String())
+				}
+				var ex expectation
+				switch {
+				case s[0].Term != termDone:
+					ex = exact(seq, s[0].Term, errs[0])
+				case len(seq) == 0 && last != nil:
+					ex = exact(seq, termErr, last)
+				default:
+					ex = exact(seq, termDone, nil)
+				}
+				ex.NoHead = true
+				return ex
+			}, map[string]any{"chain": strings.Join(order, ","), "unique_by_object": byObject, "pct_reject": mixR, "fallible_mix": mixF})
 	}
 }
 
